@@ -499,3 +499,47 @@ Proof.
   rewrite (surjective_pairing (astep s _)). rewrite Hout. f_equal.
   apply action_refusal_keeps_state. rewrite Hout. discriminate.
 Qed.
+
+(** One-step forms of the refusal conditions, for ANY state (no guard): which stored
+    entries make the next save fail, with which error, leaving the state unchanged. *)
+Lemma action_double_proposal_refused : forall s p x,
+  aget s (ph_h p) (ph_r p) = Some x -> ph_h (ra_ph x) <> 0 ->
+  astep s (ASavePH p) = (s, AErr (EDoubleAction KProposal)).
+Proof. intros s p x H Hz. simpl. rewrite H. apply N.eqb_neq in Hz. rewrite Hz. reflexivity. Qed.
+
+Lemma action_double_prevote_refused : forall s k h r bh sig x,
+  aget s h r = Some x -> ra_pvs x <> [] ->
+  astep s (ASavePV k h r bh sig) = (s, AErr (EDoubleAction KPrevote)).
+Proof. intros s k h r bh sig x H Hz. simpl. rewrite H. destruct (ra_pvs x); [contradiction|reflexivity]. Qed.
+
+Lemma action_double_precommit_refused : forall s k h r bh sig x,
+  aget s h r = Some x -> ra_pcs x <> [] ->
+  astep s (ASavePC k h r bh sig) = (s, AErr (EDoubleAction KPrecommit)).
+Proof. intros s k h r bh sig x H Hz. simpl. rewrite H. destruct (ra_pcs x); [contradiction|reflexivity]. Qed.
+
+Lemma action_key_change_refused : forall s h r bh sig x want got,
+  aget s h r = Some x -> ra_key x = Some want -> got <> want ->
+  (ra_pvs x = [] -> astep s (ASavePV (Some got) h r bh sig) = (s, AErr (EPubKeyChanged KPrevote want got))) /\
+  (ra_pcs x = [] -> astep s (ASavePC (Some got) h r bh sig) = (s, AErr (EPubKeyChanged KPrecommit want got))).
+Proof.
+  intros s h r bh sig x want got H Hk Hne.
+  assert (E : bytes_eqb want got = false).
+  { apply bytes_eqb_neq. congruence. }
+  split; intros Hs; simpl; rewrite H, Hs, Hk; simpl; rewrite E; reflexivity.
+Qed.
+
+(** Non-vacuity: a guarded sequence that exercises acceptance, both refusals and a load. *)
+Definition ex_guarded : list aop :=
+  [ASavePH (mkph 1 0 [170] (Some [1]) 1); ASavePV (Some [1]) 1 0 [170] [7];
+   ASavePV (Some [1]) 1 0 [187] [8]; ASavePC (Some [1]) 1 0 [170] [9];
+   ASavePH (mkph 1 0 [187] (Some [1]) 2);
+   ASavePV (Some [1]) 2 0 [170] [7]; ASavePC (Some [2]) 2 0 [170] [9];
+   ALoad 1 0; ALoad 3 0].
+Example ex_guarded_ok :
+  guarded_ops ex_guarded /\
+  map snd (trace astep ainit ex_guarded) =
+  [AOk; AOk; AErr (EDoubleAction KPrevote); AOk; AErr (EDoubleAction KProposal);
+   AOk; AErr (EPubKeyChanged KPrecommit [1] [2]);
+   ALoaded (mkra 1 0 (mkph 1 0 [170] (Some [1]) 1) (Some [1]) [170] [7] [170] [9]);
+   AErr (ERoundUnknown 3 0)].
+Proof. split; vm_compute; reflexivity. Qed.
